@@ -109,6 +109,36 @@ reg('C20', 'ENUM',
     'decision table grants.',
     'a preflight whose exchange failed may keep simple grants or withdraw everything (statement ambiguous); approval headers never', 'DESIGN.md section 5 C20')
 
+reg('C03', 'CHOICE+ENUM',
+    'deviation-bounded DFS over fault placements (every reached call site asks the Chooser: return / complete / raise ...) inside an enumeration of middleware/hook shapes, against an interpreter of the documented stack discipline',
+    'For every stack shape (N<=3 components x method subsets x independent/dependent x target x registration style x WSGI / ASGI plain / ASGI *_async twins, '
+    'hook stackings) every assignment of actions to the call sites actually reached is explored up to 2 (thorough 3) deviations; the complete call trace '
+    '(arguments, req_succeeded, params, error-handler calls, decoys never called, final status) must equal the model\'s. ASGI lifespan startup/shutdown '
+    'sequences are enumerated exhaustively.',
+    'HTTPStatus raised from middleware and handlers raising non-HTTP exceptions are outside the alphabet', 'DESIGN.md section 5 C03')
+
+reg('C04', 'SEQ+ENUM',
+    'explicit-state BFS over add_error_handler histories for all small exception DAGs (merged on real + model registry) x raise probes; full product of raise sites; bounded enumeration of default error renderings against independent JSON/XML decoders',
+    'All exception DAGs with <=2 (thorough 3) generated classes under Exception/HTTPError/HTTPNotFound/HTTPStatus plus five named 4-class DAGs x registration '
+    'histories of depth 2-3; after every registration an instance of every class is raised and the handler chosen must be the MRO-nearest, last-registered one, '
+    'called once with text/data/media reset. 9 raise sites x 9 registries x 8 classes; 3 005 default renderings per stack decoded and compared with a document '
+    'built from the constructor arguments (Vary, status, headers, href encoding, Accept negotiation).',
+    'BaseException-only classes and XML-unrepresentable characters are out of scope', 'DESIGN.md section 5 C04')
+
+reg('C06', 'ENUM',
+    't-wise exhaustive enumeration (every combination of any t dimensions, rest at defaults; t=3 quick, t=4 thorough, plus targeted full products) of requests x responders x options; differential oracle over four executions per case',
+    'Each case runs on falcon.App and falcon.asgi.App through the spec-faithful drivers and again through falcon.testing.simulate_request; a digest of ~75 request '
+    'attributes and the normalised response (status, header multiset, body) must agree pairwise (wsgi~asgi, wsgi~wsgi-sim, asgi~asgi-sim) after the eleven '
+    'documented by-design normalisations.',
+    'the full product of all alphabets (7*10^8) is replaced by t-wise coverage; raw non-ASCII query bytes and repeated singleton headers are excluded', 'DESIGN.md section 5 C06')
+
+reg('C16', 'ENUM',
+    'bounded-exhaustive enumeration of request paths from a traversal grammar (raw and percent-encoded renderings) x route options x stacks with every file open audited (sys.addaudithook); Range x If-Modified-Since x file size product with RFC 9110 arithmetic',
+    'All sequences of <=2 (thorough <=3) of 20 hostile/benign segment tokens (+ deeper over a core, + all edit-distance-1 mutants of existing names) in three '
+    'escapings against a real fixture tree: every audited open must be inside the directory or be the fallback; clean names are served byte-exactly; 59 Range '
+    'values x 10 If-Modified-Since values x sizes 0-4 x GET/HEAD are compared with own range arithmetic; WSGI, WSGI+file_wrapper and ASGI.',
+    'symlinks excluded by the property; Windows path semantics not modelled', 'DESIGN.md section 5 C16')
+
 PENDING = {}
 
 ALL = ['C%02d' % i for i in range(1, 21)]
